@@ -8,8 +8,11 @@ package main
 //                  oracle: error, or output tree == new build; pristine old build: no error.
 //         "skread" (oracle + model): a pwr.NewSafeKeeper pool over in-memory files (signed
 //                  content vs actual content) driven by the three consumers' read patterns
-//                  (fresh bowl Transpose, wsync.ApplySingle block range, lrufile.getChunk);
-//                  observable: ok/error and the number of bytes served per step.
+//                  (fresh bowl Transpose, wsync.ApplySingle block range, lrufile.getChunk - emulated
+//                  chunk loads, and the real bsdiff.PatchContext.Patch with its lrufile driven by
+//                  control messages whose add-runs start at aligned and unaligned old offsets);
+//                  observable: ok/error and the number of bytes served per step (for a bspatch
+//                  step: the chunk loads the real lrufile issued against the safekeeper reader).
 
 import (
 	"bytes"
@@ -22,12 +25,14 @@ import (
 	"strings"
 	"time"
 
+	"github.com/golang/protobuf/proto"
 	"github.com/itchio/lake"
 	"github.com/itchio/lake/pools/fspool"
 	"github.com/itchio/lake/tlc"
 	"github.com/itchio/savior"
 	"github.com/itchio/savior/seeksource"
 
+	"github.com/itchio/wharf/bsdiff"
 	"github.com/itchio/wharf/pwr"
 	"github.com/itchio/wharf/pwr/bowl"
 	"github.com/itchio/wharf/wsync"
@@ -254,6 +259,73 @@ func c09Targeted(r *lib.Rng) c09Pair {
 	return c09Pair{name: "targeted", old: old, nw: nw, rel: rel}
 }
 
+// c09SeriesPair: files of several blocks that the optimized patch rebuilds with a bsdiff series,
+// where the reused bytes moved: the new file dropped or gained bytes in front of them (at the
+// start of the file or further in), by amounts that are not / are a multiple of the 32 KiB the
+// patcher reads at a time, or was only edited in place (reads stay aligned); a few scattered
+// bytes change as well so that the series is more than one add-run.  Returns the pair and, as
+// fixed damages, one bit flip in EVERY block of every old file (whether a flip is noticed by a
+// bsdiff series or a block range depends on which read first enters the block).
+func c09SeriesPair(r *lib.Rng) (c09Pair, []c09Damage) {
+	bs := lib.BS
+	old, nw := &lib.Build{}, &lib.Build{}
+	var rel []string
+	var dmg []c09Damage
+	nf := r.Range(1, 2)
+	for i := 0; i < nf; i++ {
+		name := fmt.Sprintf("series/s%d.bin", i)
+		size := r.Range(2, 4)*bs + []int{0, 1, 1000, c09Chunk, c09Chunk + 1, bs - 1}[r.Intn(6)]
+		data := r.Bytes(size)
+		old.Put(lib.Entry{Path: name, Kind: "file", Data: data})
+		k := []int{1, 7, 100, c09Chunk - 1, c09Chunk + 1, bs - 1, bs + 1, r.Range(1, bs), c09Chunk, bs}[r.Intn(10)]
+		at := []int{0, 0, 0, 1, bs, bs + c09Chunk, r.Intn(size - bs)}[r.Intn(7)]
+		if at+k > size {
+			at = 0
+		}
+		var d []byte
+		how := ""
+		switch r.Intn(5) {
+		case 0, 1: // bytes dropped
+			d = append(append([]byte(nil), data[:at]...), data[at+k:]...)
+			how = fmt.Sprintf("drop@%d+%d", at, k)
+		case 2, 3: // bytes inserted
+			d = append(append(append([]byte(nil), data[:at]...), r.Bytes(k)...), data[at:]...)
+			how = fmt.Sprintf("insert@%d+%d", at, k)
+		default: // edited in place only
+			d = append([]byte(nil), data...)
+			how = "inplace"
+		}
+		for j := r.Range(1000, 9000); j < len(d); j += r.Range(40000, 200000) {
+			d[j] ^= 0xff
+		}
+		nw.Put(lib.Entry{Path: name, Kind: "file", Data: d})
+		rel = append(rel, "series:"+name+":"+how)
+		nb := (size + bs - 1) / bs
+		for b := 0; b < nb; b++ {
+			lo, hi := b*bs, (b+1)*bs
+			if hi > size {
+				hi = size
+			}
+			pos := "inner"
+			switch b {
+			case 0:
+				pos = "first"
+			case nb - 1:
+				pos = "last"
+			}
+			dmg = append(dmg, c09Damage{Class: "flip-every-block/" + pos, Path: name, Kind: "flip",
+				Arg: []int{lo, hi - 1, (lo + hi) / 2, r.Range(lo, hi-1)}[r.Intn(4)], Hit: true})
+		}
+	}
+	if r.Bool() { // a bystander copied whole
+		b := r.Bytes([]int{100, bs, bs + 5}[r.Intn(3)])
+		old.Put(lib.Entry{Path: "kept.bin", Kind: "file", Data: b})
+		nw.Put(lib.Entry{Path: "kept.bin", Kind: "file", Data: b})
+		rel = append(rel, "same:kept.bin")
+	}
+	return c09Pair{name: "series", old: old, nw: nw, rel: rel}, dmg
+}
+
 // the failing inputs of DESIGN section 7 (#4, #5, #6) as fixed corpus pairs with fixed damages
 type c09CorpusCase struct {
 	pair    c09Pair
@@ -454,6 +526,10 @@ func (c *Ctx) c09RunPair(r *lib.Rng, idx int, pr c09Pair, fixed []c09Damage, per
 				ukind = byPath[d.Path].Kind()
 				class = d.Class + "/" + ukind
 				hit = d.Hit
+				if d.Kind == "flip" { // a fixed flip: whether its block is read depends on the patch variant
+					u := byPath[d.Path]
+					hit = u != nil && (u.Whole || u.Bsdiff || u.Blocks[int64(d.Arg/lib.BS)])
+				}
 			}
 			cls, msg := lib.WithDeadline(120*time.Second, func() error {
 				_, err := lib.ApplyFresh(v.bytes, applyDir, outDir, nil, wrap)
@@ -507,12 +583,25 @@ func (c *Ctx) c09RunPair(r *lib.Rng, idx int, pr c09Pair, fixed []c09Damage, per
 
 type c09Step struct {
 	File  int
-	Kind  string // copy | range | chunks
+	Kind  string // copy | range | chunks | bspatch
 	Blk   int64
 	Span  int64
 	Cis   []int64
 	Class string
 	Bytes int64
+	// bspatch: the control messages given to bsdiff.PatchContext.Patch, the number of entries of
+	// its read cache (0 = the 1024 of the patcher), the shape of the series (class label)
+	Ctrls   []c09Ctrl
+	Entries int
+	Shape   string
+	// bspatch, observed at the safekeeper reader: the chunks the real lrufile loaded, whether every
+	// load succeeded, the bytes the loads returned; Unmodelable = some access was not "seek to a
+	// multiple of 32 KiB, read 32 KiB" (then the case is judged by the oracle only)
+	Loads       []int64
+	LoadsOK     bool
+	Loaded      int64
+	Unmodelable string
+	Unsigned    string // a load was given bytes that are not the signed content
 }
 
 func (s c09Step) Coq() string {
@@ -521,9 +610,221 @@ func (s c09Step) Coq() string {
 		return fmt.Sprintf("(%s, PCopy)", lib.CoqN(int64(s.File)))
 	case "range":
 		return fmt.Sprintf("(%s, PRange %s %s)", lib.CoqN(int64(s.File)), lib.CoqN(s.Blk), lib.CoqN(s.Span))
+	case "bspatch":
+		return fmt.Sprintf("(%s, PChunks %s)", lib.CoqN(int64(s.File)), lib.CoqNList(s.Loads))
 	default:
 		return fmt.Sprintf("(%s, PChunks %s)", lib.CoqN(int64(s.File)), lib.CoqNList(s.Cis))
 	}
+}
+
+// what the model is compared with: for a bspatch step the model sees the loads of the real
+// lrufile (PChunks), so the observation is taken at the safekeeper reader, not at the output
+func (s c09Step) CoqObs() string {
+	if s.Kind == "bspatch" {
+		return fmt.Sprintf("(%s, %s)", lib.CoqBool(s.LoadsOK), lib.CoqN(s.Loaded))
+	}
+	return fmt.Sprintf("(%s, %s)", lib.CoqBool(s.Class == "ok"), lib.CoqN(s.Bytes))
+}
+
+func (s c09Step) String() string {
+	if s.Kind == "bspatch" {
+		return fmt.Sprintf("%d:bspatch(%s, cache entries %d) %s", s.File, s.Shape, s.Entries, c09DescribeCtrls(s.Ctrls))
+	}
+	return strings.TrimSpace(fmt.Sprintf("%d:%s %d+%d %v", s.File, s.Kind, s.Blk, s.Span, s.Cis))
+}
+
+// ---- bsdiff series over the safekeeper (the third consumer, for real)
+
+// c09Ctrl is one bsdiff control: add Add to len(Add) old bytes at the old offset, append Copy,
+// move the old offset by Seek.
+type c09Ctrl struct {
+	Add, Copy []byte
+	Seek      int64
+}
+
+func c09DescribeCtrls(cs []c09Ctrl) string {
+	var sb strings.Builder
+	off := int64(0)
+	for i, c := range cs {
+		if i >= 16 {
+			fmt.Fprintf(&sb, " ... (%d controls)", len(cs))
+			break
+		}
+		fmt.Fprintf(&sb, " [old@%d add %d copy %d seek %d]", off, len(c.Add), len(c.Copy), c.Seek)
+		off += int64(len(c.Add)) + c.Seek
+	}
+	return strings.TrimSpace(sb.String())
+}
+
+// c09BspatchIdeal: what the series yields on the signed content (bspatch restated)
+func c09BspatchIdeal(signed []byte, cs []c09Ctrl) []byte {
+	var out []byte
+	off := int64(0)
+	for _, c := range cs {
+		for j, a := range c.Add {
+			out = append(out, a+signed[off+int64(j)])
+		}
+		out = append(out, c.Copy...)
+		off += int64(len(c.Add)) + c.Seek
+	}
+	return out
+}
+
+// c09GenCtrls draws a valid series for an old file of size bytes (size > 0): every add-run lies
+// inside the file and every old offset in [0, size].  What matters for this property is where
+// the reads of the old file start relative to the 32 KiB chunks of the read cache and the
+// 64 KiB blocks of the signature: aligned (in-place edits), shifted by a few bytes, by a chunk
+// or a block +- 1, or anywhere (bytes dropped / inserted in front of the reused part), in one
+// long run or in pieces, forwards, backwards or jumping.
+func c09GenCtrls(r *lib.Rng, size int) ([]c09Ctrl, string) {
+	starts := []int{0, 1, 100, c09Chunk - 1, c09Chunk, c09Chunk + 1, bs64 - 1, bs64, bs64 + 1, bs64 + c09Chunk + 1, r.Intn(size + 1), r.Intn(size + 1)}
+	start := starts[r.Intn(len(starts))]
+	if start > size {
+		start = r.Intn(size + 1)
+	}
+	bytesOf := func(n int) []byte {
+		if r.Chance(1, 3) {
+			return r.Bytes(n)
+		}
+		return make([]byte, n)
+	}
+	var cs []c09Ctrl
+	shape := ""
+	if start > 0 { // the first control only moves the old offset (bytes inserted in the new file)
+		cs = append(cs, c09Ctrl{Copy: r.Bytes(r.Range(0, 9)), Seek: int64(start)})
+	}
+	cur := start
+	align := "unaligned"
+	if start%c09Chunk == 0 {
+		align = "aligned"
+	}
+	switch pat := r.Intn(4); pat {
+	case 0: // one add-run up to the end of the old file
+		shape = "one-run-to-end"
+		cs = append(cs, c09Ctrl{Add: bytesOf(size - cur), Copy: r.Bytes(r.Range(0, 5))})
+	case 1: // one add-run ending anywhere (on a chunk / block boundary, +-1, at random)
+		shape = "one-run"
+		end := []int{cur + c09Chunk, cur + bs64, (cur/bs64 + 1) * bs64, (cur/bs64+2)*bs64 - 1, (cur/bs64+1)*bs64 + 1, r.Range(cur, size), size - 1}[r.Intn(7)]
+		if end > size || end < cur {
+			end = size
+		}
+		cs = append(cs, c09Ctrl{Add: bytesOf(end - cur), Copy: r.Bytes(r.Range(0, 5))})
+	case 2: // contiguous pieces, as bsdiff emits them: add, a few fresh bytes, a small seek
+		shape = "pieces"
+		for n := 0; cur < size && n < 24; n++ {
+			l := []int{1, 100, c09Chunk - 1, c09Chunk, c09Chunk + 1, bs64, bs64 + c09Chunk, r.Range(1, 3*c09Chunk)}[r.Intn(8)]
+			if l > size-cur {
+				l = size - cur
+			}
+			next := cur + l + []int{0, 0, 1, 7, -1, -7, 300}[r.Intn(7)]
+			if next < 0 || next > size {
+				next = cur + l
+			}
+			cs = append(cs, c09Ctrl{Add: bytesOf(l), Copy: r.Bytes(r.Range(0, 9)), Seek: int64(next - cur - l)})
+			cur = next
+		}
+	default: // jumps: each add-run starts somewhere else (blocks reused out of order)
+		shape = "jumps"
+		align = "mixed"
+		m := r.Range(1, 6)
+		for n := 0; n < m; n++ {
+			l := []int{1, 100, c09Chunk, c09Chunk + 1, bs64, r.Range(0, 2*bs64)}[r.Intn(6)]
+			if l > size-cur {
+				l = size - cur
+			}
+			var next int
+			switch r.Intn(4) {
+			case 0:
+				next = r.Intn(size/c09Chunk+1) * c09Chunk // a chunk start
+			case 1:
+				next = r.Intn(size/bs64+1)*bs64 + r.Range(-1, 1) // around a block start
+			default:
+				next = r.Intn(size + 1)
+			}
+			if next < 0 || next > size {
+				next = 0
+			}
+			cs = append(cs, c09Ctrl{Add: bytesOf(l), Copy: r.Bytes(r.Range(0, 9)), Seek: int64(next - cur - l)})
+			cur = next
+		}
+	}
+	return cs, align + "/" + shape
+}
+
+// c09RunFrom: the series of a new file that is the old one from byte start on, unchanged
+func c09RunFrom(size, start, entries int) c09Step {
+	cs := []c09Ctrl{{Add: make([]byte, size-start)}}
+	if start > 0 {
+		cs = []c09Ctrl{{Seek: int64(start)}, cs[0]}
+	}
+	return c09Step{Kind: "bspatch", Ctrls: cs, Entries: entries, Shape: "corpus"}
+}
+
+func c09CtrlReader(cs []c09Ctrl) bsdiff.ReadMessageFunc {
+	i := 0
+	return func(m proto.Message) error {
+		c := m.(*bsdiff.Control)
+		c.Reset()
+		if i >= len(cs) {
+			c.Eof = true
+			return nil
+		}
+		c.Add = append([]byte(nil), cs[i].Add...)
+		c.Copy = append([]byte(nil), cs[i].Copy...)
+		c.Seek = cs[i].Seek
+		i++
+		return nil
+	}
+}
+
+// c09LoadRecorder sits between the lrufile and the safekeeper reader and notes every access.
+type c09LoadRecorder struct {
+	rs          io.ReadSeeker
+	signed      []byte // what the file held when it was signed
+	unsigned    string // first load that returned something else than signed content
+	pos         int64  // -1: not known (after a seek relative to the end)
+	loads       []int64
+	ok          bool
+	loaded      int64
+	unmodelable string
+}
+
+func (lr *c09LoadRecorder) Seek(off int64, whence int) (int64, error) {
+	p, err := lr.rs.Seek(off, whence)
+	switch {
+	case err != nil:
+		lr.ok = false
+		lr.pos = -1
+	case whence == io.SeekStart:
+		lr.pos = off
+	default:
+		if !(whence == io.SeekEnd && off == 0 && len(lr.loads) == 0) && lr.unmodelable == "" {
+			lr.unmodelable = fmt.Sprintf("seek(%d, whence %d) after %d loads", off, whence, len(lr.loads))
+		}
+		lr.pos = -1
+	}
+	return p, err
+}
+
+func (lr *c09LoadRecorder) Read(p []byte) (int, error) {
+	if (lr.pos < 0 || lr.pos%c09Chunk != 0 || len(p) != c09Chunk) && lr.unmodelable == "" {
+		lr.unmodelable = fmt.Sprintf("read of %d bytes at %d", len(p), lr.pos)
+	}
+	if lr.pos >= 0 {
+		lr.loads = append(lr.loads, lr.pos/c09Chunk)
+	}
+	n, err := lr.rs.Read(p)
+	lr.loaded += int64(n)
+	if err != nil && err != io.EOF {
+		lr.ok = false
+	}
+	if at := lr.pos; at >= 0 && n > 0 && lr.unsigned == "" {
+		if at+int64(n) > int64(len(lr.signed)) || !bytes.Equal(p[:n], lr.signed[at:at+int64(n)]) {
+			lr.unsigned = fmt.Sprintf("the read cache was given %d bytes at offset %d that are not the signed content", n, at)
+		}
+	}
+	lr.pos = -1 // the lrufile seeks before every load
+	return n, err
 }
 
 type c09File struct{ Signed, Actual []byte }
@@ -535,6 +836,8 @@ func c09Ideal(signed []byte, s c09Step) []byte {
 	switch s.Kind {
 	case "copy":
 		return signed
+	case "bspatch":
+		return c09BspatchIdeal(signed, s.Ctrls)
 	case "range":
 		last := s.Blk + s.Span - 1
 		lastSize := bs
@@ -557,6 +860,15 @@ func c09Ideal(signed []byte, s c09Step) []byte {
 		}
 		return out
 	}
+}
+
+func c09FirstDiff(a, b []byte) int {
+	for i := 0; i < len(a) && i < len(b); i++ {
+		if a[i] != b[i] {
+			return i
+		}
+	}
+	return min(len(a), len(b))
 }
 
 type plainWriter struct{ w io.Writer }
@@ -593,11 +905,40 @@ func (c *Ctx) c09Drive(files []c09File, steps []c09Step, tag string) (oracle str
 	if err != nil {
 		return "", err
 	}
+	// one patch context for all the bsdiff series of a case, as the patcher has one per patch:
+	// the read cache is Reset, not cleared, between files
+	var pc *bsdiff.PatchContext
+	pcEntries := -1
 	for si := range steps {
 		s := &steps[si]
 		var served []byte
 		var cls, msg string
 		switch s.Kind {
+		case "bspatch":
+			var buf bytes.Buffer
+			rec := &c09LoadRecorder{ok: true, pos: -1, signed: files[s.File].Signed}
+			cls, msg = lib.Guard(func() error {
+				if pc == nil || pcEntries != s.Entries {
+					pc, pcEntries = bsdiff.NewPatchContext(), s.Entries
+					if s.Entries > 0 { // same 32 KiB chunks, fewer of them: loads, evictions and re-loads
+						if err := pc.VerifSetLRU(c09Chunk, s.Entries); err != nil {
+							return err
+						}
+					}
+				}
+				rs, err := sk.GetReadSeeker(int64(s.File))
+				if err != nil {
+					rec.ok = false
+					return err
+				}
+				rec.rs = rs
+				return pc.Patch(rec, plainWriter{&buf}, int64(len(c09BspatchIdeal(files[s.File].Signed, s.Ctrls))), c09CtrlReader(s.Ctrls))
+			})
+			served = buf.Bytes()
+			s.Loads, s.LoadsOK, s.Loaded, s.Unmodelable, s.Unsigned = rec.loads, rec.ok, rec.loaded, rec.unmodelable, rec.unsigned
+			if cls == "panic" {
+				pc = nil
+			}
 		case "copy":
 			dir := filepath.Join(c.Tmp, "c09-skread-"+tag)
 			outC := &tlc.Container{Files: []*tlc.File{{Path: "out.bin", Mode: 0o644, Size: int64(len(files[s.File].Signed))}}}
@@ -652,6 +993,18 @@ func (c *Ctx) c09Drive(files []c09File, steps []c09Step, tag string) (oracle str
 		switch {
 		case cls == "panic":
 			oracle = fmt.Sprintf("step %d: panic: %s", si, msg)
+		case s.Kind == "bspatch":
+			// what the series writes before it fails is not served content (the bytes of a failed read
+			// are written without the add bytes, and the file is discarded): judge the bytes the
+			// safekeeper handed to the read cache, and the output of a series that completed
+			switch {
+			case s.Unsigned != "":
+				oracle = fmt.Sprintf("step %d (bspatch): %s", si, s.Unsigned)
+			case cls == "ok" && !bytes.Equal(served, ideal):
+				oracle = fmt.Sprintf("step %d (bspatch): completed without error but the output (%d bytes) is not what the series yields on the signed content (%d bytes, first difference at %d)", si, len(served), len(ideal), c09FirstDiff(served, ideal))
+			case cls != "ok" && pristine:
+				oracle = fmt.Sprintf("step %d (bspatch): undamaged file rejected: %s", si, msg)
+			}
 		case !bytes.HasPrefix(ideal, served):
 			oracle = fmt.Sprintf("step %d (%s): served bytes are not a prefix of the signed content (served %d bytes, class %s)", si, s.Kind, len(served), cls)
 		case cls == "ok" && len(served) != len(ideal):
@@ -756,12 +1109,17 @@ func c09GenFile(r *lib.Rng) (c09File, string) {
 func c09GenSteps(r *lib.Rng, files []c09File) []c09Step {
 	var steps []c09Step
 	n := r.Range(1, 4)
+	// the read cache of the bsdiff patcher: the real one (1024 chunks of 32 KiB) or a few chunks
+	entries := []int{0, 0, 1, 2, 3, 5}[r.Intn(6)]
 	for i := 0; i < n; i++ {
 		fi := r.Intn(len(files))
 		size := len(files[fi].Signed)
 		nb := int64((size + lib.BS - 1) / lib.BS)
-		switch k := r.Intn(3); {
-		case k == 0 || (k == 1 && nb == 0):
+		switch k := r.Intn(5); {
+		case k >= 3 && size > 0: // a bsdiff series read through the real lrufile
+			cs, shape := c09GenCtrls(r, size)
+			steps = append(steps, c09Step{File: fi, Kind: "bspatch", Ctrls: cs, Entries: entries, Shape: shape})
+		case k == 0 || k >= 3 || (k == 1 && nb == 0):
 			steps = append(steps, c09Step{File: fi, Kind: "copy"})
 		case k == 1:
 			b := int64(r.Intn(int(nb)))
@@ -804,15 +1162,27 @@ func (c *Ctx) c09EmitSkread(files []c09File, steps []c09Step, class string, tag 
 	}
 	var inSteps []string
 	var obs []string
+	group := "skread"
 	for _, s := range steps {
 		ss = append(ss, s.Coq())
-		os_ = append(os_, fmt.Sprintf("(%s, %s)", lib.CoqBool(s.Class == "ok"), lib.CoqN(s.Bytes)))
-		inSteps = append(inSteps, strings.TrimSpace(fmt.Sprintf("%d:%s %d+%d %v", s.File, s.Kind, s.Blk, s.Span, s.Cis)))
-		obs = append(obs, fmt.Sprintf("%s/%d", s.Class, s.Bytes))
+		os_ = append(os_, s.CoqObs())
+		inSteps = append(inSteps, s.String())
+		if s.Kind == "bspatch" {
+			obs = append(obs, fmt.Sprintf("%s/%d loads %v ok=%v %d bytes", s.Class, s.Bytes, s.Loads, s.LoadsOK, s.Loaded))
+			if s.Unmodelable != "" { // the cache did something else than loading whole chunks: oracle only
+				group = ""
+				obs = append(obs, "not expressible as chunk loads: "+s.Unmodelable)
+			}
+		} else {
+			obs = append(obs, fmt.Sprintf("%s/%d", s.Class, s.Bytes))
+		}
 	}
-	c.Out.Emit(&lib.Case{Group: "skread", Class: "skread/" + class, Nontrivial: damaged && len(steps) > 0,
-		Input: map[string]interface{}{"files": inFiles, "steps": inSteps}, Obs: obs, Oracle: oracle,
-		Coq: fmt.Sprintf("($ID%%N, %s, %s, %s)", lib.CoqList(fs), lib.CoqList(ss), lib.CoqList(os_))})
+	cs := &lib.Case{Group: group, Class: "skread/" + class, Nontrivial: damaged && len(steps) > 0,
+		Input: map[string]interface{}{"files": inFiles, "steps": inSteps}, Obs: obs, Oracle: oracle}
+	if group != "" {
+		cs.Coq = fmt.Sprintf("($ID%%N, %s, %s, %s)", lib.CoqList(fs), lib.CoqList(ss), lib.CoqList(os_))
+	}
+	c.Out.Emit(cs)
 	return nil
 }
 
@@ -825,6 +1195,13 @@ func runC09(c *Ctx) error {
 	small := structuredContent(rc, 100)
 	tail := structuredContent(rc, bs+34464)
 	ext := append(append([]byte(nil), small...), 7, 7, 7, 7, 7)
+	long := structuredContent(rc, 3*bs+1000)
+	flipAt := func(b []byte, at int) []byte {
+		out := append([]byte(nil), b...)
+		out[at] ^= 0x10
+		return out
+	}
+	onFile := func(i int, s c09Step) c09Step { s.File = i; return s }
 	corpus := []struct {
 		name  string
 		files []c09File
@@ -839,6 +1216,14 @@ func runC09(c *Ctx) error {
 		{"corpus/cut-at-boundary-range", []c09File{{tail, tail[:bs]}}, []c09Step{{Kind: "range", Blk: 0, Span: 2}}},
 		{"corpus/cut-at-boundary-chunks", []c09File{{tail, tail[:bs]}}, []c09Step{{Kind: "chunks", Cis: []int64{1, 2, 3}}}},
 		{"corpus/same-file-copied-twice", []c09File{{tail, tail}}, []c09Step{{Kind: "copy"}, {Kind: "copy"}, {Kind: "range", Blk: 1, Span: 1}, {Kind: "copy"}}},
+		// a bsdiff series whose 32 KiB reads straddle the chunks of the read cache (the new file lost
+		// its first 100 bytes): damage in a block that is only ever entered in the middle of a read
+		{"corpus/bspatch-shifted-run-pristine", []c09File{{long, long}}, []c09Step{c09RunFrom(len(long), 100, 0)}},
+		{"corpus/bspatch-shifted-run-flip-inner-block", []c09File{{long, flipAt(long, bs+40000)}}, []c09Step{c09RunFrom(len(long), 100, 0)}},
+		{"corpus/bspatch-shifted-run-flip-last-block", []c09File{{long, flipAt(long, len(long)-1)}}, []c09Step{c09RunFrom(len(long), c09Chunk+1, 0)}},
+		{"corpus/bspatch-shifted-run-cut-at-boundary", []c09File{{long, long[:2*bs]}}, []c09Step{c09RunFrom(len(long), 100, 0)}},
+		{"corpus/bspatch-aligned-run-flip-inner-block", []c09File{{long, flipAt(long, 2*bs+10)}}, []c09Step{c09RunFrom(len(long), 0, 0)}},
+		{"corpus/bspatch-small-cache-flip-inner-block", []c09File{{long, flipAt(long, 2*bs+10)}, {tail, tail}}, []c09Step{onFile(1, c09RunFrom(len(tail), 7, 2)), c09RunFrom(len(long), 100, 2), {Kind: "copy", File: 1}}},
 	}
 	for i, cc := range corpus {
 		if err := c.c09EmitSkread(cc.files, cc.steps, cc.name, fmt.Sprintf("corpus%d", i)); err != nil {
@@ -854,7 +1239,7 @@ func runC09(c *Ctx) error {
 		return err
 	}
 	// ---- generated: reader level
-	n := c.N(150, 1200)
+	n := c.N(200, 1400)
 	if c.Tier == "search" { // the search after a correspondence break: a second, larger quick run
 		n = 400
 	}
@@ -869,12 +1254,16 @@ func runC09(c *Ctx) error {
 			classes = append(classes, cl)
 		}
 		steps := c09GenSteps(cr, files)
-		if err := c.c09EmitSkread(files, steps, classes[steps[0].File]+"/"+steps[0].Kind, fmt.Sprint(i)); err != nil {
+		kind := steps[0].Kind
+		if kind == "bspatch" {
+			kind += "/" + steps[0].Shape
+		}
+		if err := c.c09EmitSkread(files, steps, classes[steps[0].File]+"/"+kind, fmt.Sprint(i)); err != nil {
 			return err
 		}
 	}
 	// ---- generated: end to end
-	np := c.N(10, 100)
+	np := c.N(15, 120)
 	if c.Tier == "search" {
 		np = 24
 	}
@@ -885,13 +1274,19 @@ func runC09(c *Ctx) error {
 	for i := 0; i < np; i++ {
 		cr := r.Fork()
 		var pr c09Pair
-		if i%2 == 0 {
+		var fixed []c09Damage
+		n := per
+		switch i % 3 {
+		case 0:
 			pr = c09Targeted(cr)
-		} else {
+		case 1:
 			old, nw, rel := lib.GenPair(cr, lib.PairOpts{MaxFiles: 4, MaxSize: 4 * bs})
 			pr = c09Pair{name: "genpair", old: old, nw: nw, rel: rel}
+		default:
+			pr, fixed = c09SeriesPair(cr)
+			n = per / 2
 		}
-		if err := c.c09RunPair(cr, i, pr, nil, per); err != nil {
+		if err := c.c09RunPair(cr, i, pr, fixed, n); err != nil {
 			return err
 		}
 	}
